@@ -241,6 +241,7 @@ impl Compiler {
                 start,
                 count: count as u16,
             });
+            self.builder.free_registers(start, count);
         } else {
             // Slow path: array has spreads, build incrementally
             // Start with an empty array
@@ -1731,6 +1732,7 @@ impl Compiler {
                 args_start,
                 argc,
             });
+            self.builder.free_registers(args_start, argc as usize);
             return Ok(());
         }
 
@@ -2170,6 +2172,8 @@ impl Compiler {
                 argc,
             });
         }
+        // The argument registers (or the spread array) are dead once the call is emitted
+        self.builder.free_registers(args_start, argc as usize);
     }
 
     /// Compile a new expression
@@ -2198,6 +2202,7 @@ impl Compiler {
                 argc,
             });
         }
+        self.builder.free_registers(args_start, argc as usize);
 
         self.builder.free_register(callee_reg);
         Ok(())
@@ -2303,6 +2308,7 @@ impl Compiler {
             start,
             count: reg_idx,
         });
+        self.builder.free_registers(start, total_parts);
 
         Ok(())
     }
@@ -2417,6 +2423,7 @@ impl Compiler {
             exprs_start,
             exprs_count: exprs_count as u8,
         });
+        self.builder.free_registers(exprs_start, exprs_count);
 
         // Clean up
         self.builder.free_register(final_this_reg);
